@@ -246,6 +246,15 @@ func e2ePatch(c *e2eCtx) error {
 			}
 			c.patchRound(s, r, rounds+2, &patchDirective{dirs: all, deleteAll: true})
 		}
+		// directed pair (one project in four): EVERY tracking point is deleted (N becomes 0: the generated
+		// file, the service starts and the package directory go), then insert markers — the project is
+		// "not tracked" at that moment, patch must still turn the markers into tracking points
+		if i%4 == 3 {
+			if c.patchRound(s, r, rounds+4, &patchDirective{everything: true, deleteAll: true}) {
+				c.count("directed:all-points-deleted-then-inserts")
+				c.patchRound(s, r, rounds+5, &patchDirective{everything: true, inserts: 1 + r.Intn(3)})
+			}
+		}
 		// configuration change between the commands (one project in four with several main packages):
 		// `mainEntries` is narrowed to one main package after track, then a patch round with an insert
 		// marker — the other main packages must lose their service-start call, the tables stay whole
@@ -277,9 +286,10 @@ func e2ePatch(c *e2eCtx) error {
 
 // patchDirective restricts a round to the files of some directories (a component's import closure)
 type patchDirective struct {
-	dirs      map[string]bool
-	deleteAll bool
-	inserts   int
+	dirs       map[string]bool
+	deleteAll  bool
+	inserts    int
+	everything bool // every file of the project, not only those of dirs
 }
 
 func (c *e2eCtx) patchRound(s *scenario, r *rand.Rand, rd int, dv *patchDirective) bool {
@@ -302,7 +312,7 @@ func (c *e2eCtx) patchRound(s *scenario, r *rand.Rand, rd int, dv *patchDirectiv
 			mode = 9
 		}
 		for _, p := range files {
-			if dv.dirs[filepath.Dir(p)] {
+			if dv.everything || dv.dirs[filepath.Dir(p)] {
 				sub = append(sub, p)
 			}
 		}
